@@ -5,6 +5,12 @@ package h
 
 // Registry maps harness names to functions taking the integer bounds.
 var Registry = map[string]func(args []int64){
-	"H_Smoke": func(a []int64) { H_Smoke(int(a[0])) },
-	"H_C09":   func(a []int64) { H_C09(int(a[0]), int(a[1])) },
+	"H_Smoke":   func(a []int64) { H_Smoke(int(a[0])) },
+	"H_C09":     func(a []int64) { H_C09(int(a[0]), int(a[1])) },
+	"H_C15":     func(a []int64) { H_C15(int(a[0]), int(a[1])) },
+	"H_C12":     func(a []int64) { H_C12(int(a[0]), int(a[1])) },
+	"H_C13a":    func(a []int64) { H_C13a(int(a[0]), int(a[1])) },
+	"H_C12tok":  func(a []int64) { H_C12tok(int(a[0]), int(a[1])) },
+	"H_C13atok": func(a []int64) { H_C13atok(int(a[0]), int(a[1])) },
+	"H_Probe":   func(a []int64) { H_Probe(int(a[0])) },
 }
